@@ -79,21 +79,47 @@ class OpsMixin(object):
     elif allowed is not None:
       alive = [a for a in allowed if tags is None or a in tags]
       if len(alive) > 1 and not self.spec_mode:
-        alive = [a for a in alive if self.feasible(st, vv.recog(a, t))]
+        alive = [a for a in alive if self.feasible(st, self.recog(a, t))]
     else:
       alive = []
       for tag in list(tags or vv.TAGS):
-        if self.feasible(st, vv.recog(tag, t)):
+        if self.feasible(st, self.recog(tag, t)):
           alive.append(tag)
     for n, tag in enumerate(alive):
       s = st if n == len(alive) - 1 else st.fork()
       if not known:
-        s.assume(vv.recog(tag, t))
+        s.assume(self.recog(tag, t))
         s.tags[key] = tag
       out.append((s, self.typed(s, t, tag)))
     return out
 
+  def recog(self, tag, t):
+    """Recogniser of a (possibly compound) tag: 'int', 'enum:Outcome', 'ref:ExceptionInfo', ..."""
+    if ':' not in tag:
+      return vv.recog(tag, t)
+    head, name = tag.split(':', 1)
+    c = self.class_by_name(name)
+    if head == 'enum':
+      return z3.And(Val.is_VE(t), Val.e(t) == c.uid, Val.m(t) >= 0, Val.m(t) < len(c.members))
+    if head == 'ref':
+      if isinstance(c, str):
+        return z3.And(Val.is_VR(t), Val.r(t) != 0)
+      subs = self.ctx.registry.subclasses(c)
+      return z3.And(Val.is_VR(t), Val.r(t) != 0, z3.Or(*[st_classof(self, Val.r(t)) == x.uid for x in subs]))
+    if head == 'fn':
+      return Val.is_VC(t)
+    raise Unsupported('tag ' + tag)
+
   def typed(self, st, t, tag):
+    if ':' in tag:
+      head, name = tag.split(':', 1)
+      c = self.class_by_name(name)
+      if head == 'enum':
+        return VEnum(c, Val.m(t))
+      if head == 'ref':
+        return VRef(c, Val.r(t))
+      if head == 'fn':
+        return VCallable(Val.c(t), label=name)
     if tag == 'none':
       return NONE
     if tag == 'bool':
@@ -251,7 +277,7 @@ class OpsMixin(object):
   def views(self, st, v):
     """Non-forking case view of a value: [(cond, typed V)] or None when a non-scalar tag is possible."""
     if not isinstance(v, VVal):
-      if isinstance(v, (VNone, VBool, VInt, VFloat, VStr, VBytes)):
+      if isinstance(v, (VNone, VBool, VInt, VFloat, VStr, VBytes, VEnum)):
         return [(z3.BoolVal(True), v)]
       return None
     known = st.tags.get(v.t.get_id())
@@ -261,11 +287,11 @@ class OpsMixin(object):
       tags = known
     else:
       return None
-    if any(t not in self.SCALAR_TAGS for t in tags):
+    if any(t not in self.SCALAR_TAGS and not t.startswith('enum:') for t in tags):
       return None
     if len(tags) == 1:
       return [(z3.BoolVal(True), self.typed(st, v.t, tags[0]))]
-    return [(vv.recog(t, v.t), self.typed(st, v.t, t)) for t in tags]
+    return [(self.recog(t, v.t), self.typed(st, v.t, t)) for t in tags]
 
   def compare(self, st, op, a, b):
     """Python comparison a <op> b: [(state, V bool | Raised)]."""
@@ -312,6 +338,9 @@ class OpsMixin(object):
       return vv.cmp_str_str(op, a.t, b.t)
     if isinstance(a, VBytes) and isinstance(b, VBytes):
       return vv.cmp_str_str(op, a.t, b.t)
+    if isinstance(a, VEnum) and isinstance(b, VEnum) and op in ('==', '!='):
+      eq = z3.And(a.t == b.t) if a.enum is b.enum else z3.BoolVal(False)
+      return eq if op == '==' else z3.Not(eq)
     if op == '==':
       return z3.BoolVal(isinstance(a, VNone) and isinstance(b, VNone))
     if op == '!=':
@@ -449,7 +478,7 @@ class OpsMixin(object):
         tags = []
         for g, r in cases:
           for tag in ('int', 'float'):
-            if z3.is_true(z3.simplify(vv.recog(tag, r))) and tag not in tags:
+            if z3.is_true(z3.simplify(self.recog(tag, r))) and tag not in tags:
               tags.append(tag)
         if tags:
           s.tags[t.get_id()] = tuple(tags) if len(tags) > 1 else tags[0]
@@ -573,6 +602,13 @@ class OpsMixin(object):
     st.assume(z3.ForAll([i], z3.Implies(z3.And(0 <= i, i < nb), z3.Select(items, na + i) == z3.Select(ib, i))))
     self.list_set(st, res, na + nb, items)
     return res
+
+
+_CLASSOF = z3.Function('classof', z3.IntSort(), z3.IntSort())
+
+
+def st_classof(ex, r):
+  return _CLASSOF(r)
 
 
 class _SafetyCollector(object):
